@@ -131,7 +131,7 @@ def wtVariant (rec : Ty → Val → Bool) (mask alen dlen : Nat) (dims : Option 
   let tid := mask % 64
   decide (mask < 256) &&
   (if tid = 0 then
-     decide (alen = 0 ∧ dlen = 0 ∧ dims = none ∧ vt = ⟨0, 0⟩) && (value matches .nil)
+     decide (alen = 0 ∧ dlen = 0 ∧ dims = none ∧ vt = ⟨0, 0⟩) && value.isNil
    else if tid > 25 then false
    else if ¬ has mask 0x80 then
      !has mask 0x40 && decide (alen = 0 ∧ dlen = 0 ∧ dims = none ∧ vt = ⟨tid, 0⟩) && wtLeaf rec tid value
@@ -177,7 +177,10 @@ def wtExtObj (env : Env) (fuel : Nat) (rec : Ty → Val → Bool) (mask : Nat) (
   (match typeId with
    | none => false
    | some e => wtExp e &&
-     (if mask = 0 then vname.isEmpty && (value matches .nil)
+     (if mask = 0 then vname.isEmpty && value.isNil
+      else if vname.isEmpty && value.isNil then
+        -- decoded without a value (unknown type id, or no body): re-encoded with a null body
+        true
       else if mask = 2 then
         vname == xmlName && rec xmlElementPtr value && bodyOk (encode env fuel xmlElementPtr value)
       else
